@@ -96,6 +96,9 @@ impl Check for MigrationCheck {
     fn gen_plan(&self, seed: u64, index: u64, _tier: Tier) -> Value {
         let mut rng = Rng::new(seed, "plan");
         let ttl_mode = self.prop == "C19";
+        // every fourth C03 run: value compression on (string keys and the commands that stay
+        // meaningful on compressed values only); reads must still return what was written
+        let compress = !ttl_mode && index % 4 == 2;
         let scale_out = rng.chance(1, 2);
         let (start_chunks, target_chunks) = if scale_out { (*rng.pick(&[1usize, 1, 2]), 0usize) } else { (*rng.pick(&[2usize, 2, 3]), 0usize) };
         let target_chunks = if scale_out { start_chunks + 1 } else { start_chunks - 1 + target_chunks };
@@ -104,7 +107,7 @@ impl Check for MigrationCheck {
         let n_clients = rng.range(2, 4) as usize;
         let mut keys = vec![];
         for k in 0..n_keys {
-            let class = if ttl_mode { "str" } else { *rng.pick(&["str", "str", "str", "cnt", "lst"]) };
+            let class = if ttl_mode || compress { "str" } else { *rng.pick(&["str", "str", "str", "cnt", "lst"]) };
             let tagged = rng.chance(1, 6);
             let name = if tagged { format!("{{t{}}}k{}", rng.below(4), k) } else { format!("k{}:{}", k, rng.below(100_000)) };
             // C19: a ttl population (1 ms .. beyond 2^31 and 2^32 ms) and persistent keys
@@ -119,7 +122,7 @@ impl Check for MigrationCheck {
             for g in 0..groups {
                 let hot_name = format!("hot{}:{}", g, rng.below(100_000));
                 let l = crate::slots::lock_slot_of(hot_name.as_bytes());
-                let hot_class = *rng.pick(&["str", "lst"]);
+                let hot_class = if compress { "str" } else { *rng.pick(&["str", "lst"]) };
                 hot_keys.push(keys.len());
                 keys.push(json!({"name": hot_name, "class": hot_class, "preload": true, "ttl_ms": 0}));
                 let quiet = rng.range(1, 3);
@@ -148,6 +151,8 @@ impl Check for MigrationCheck {
                 _ => {
                     if ttl_mode {
                         *rng.pick(&["GET", "GET", "EXISTS", "DEL", "SET"])
+                    } else if compress {
+                        *rng.pick(&["GET", "GET", "SET", "SET", "SETNX", "GETSET", "EXISTS", "DEL"])
                     } else {
                         *rng.pick(&OPS_STR)
                     }
@@ -192,7 +197,7 @@ impl Check for MigrationCheck {
                     let c1 = rng.below(n_clients as u64);
                     let c2 = (c1 + 1 + rng.below(n_clients as u64 - 1)) % n_clients as u64;
                     let proxy = rng.below(n_proxies as u64);
-                    let first = if lst { "LLEN" } else if ttl_mode { *rng.pick(&["GET", "EXISTS"]) } else { *rng.pick(&["GET", "EXISTS", "GET", "APPEND"]) };
+                    let first = if lst { "LLEN" } else if ttl_mode || compress { *rng.pick(&["GET", "EXISTS"]) } else { *rng.pick(&["GET", "EXISTS", "GET", "APPEND"]) };
                     let second = if lst { *rng.pick(&["DEL", "LPOP", "RPOP"]) } else { "DEL" };
                     ops.push(json!({"c": c1, "at": at, "key": k, "op": first, "val": format!("r{}_{}", j, rng.below(1000)), "proxy": proxy}));
                     ops.push(json!({"c": c2, "at": at + rng.below(6 * max_latency_ms + 1), "key": k, "op": second, "val": format!("d{}_{}", j, rng.below(1000)), "proxy": proxy}));
@@ -221,11 +226,15 @@ impl Check for MigrationCheck {
                 "scale_at_ms": scale_at,
                 "scan_dup": rng.chance(1, 4),
                 "pttl_override": pttl_override,
+                "compression": if compress { "allow_all" } else { "disabled" },
                 // heavy-tailed latency: lets a message on one connection be overtaken by a whole
                 // exchange on others
                 // directed schedule fault: the next n RESTORE messages stay in flight up to x ms longer, and
                 // a racing client deletes their key through a random proxy the moment they are sent
                 "racer": if index % 3 == 1 { json!({"uses": rng.range(4, 40), "extra_ms_max": *rng.pick(&[30u64, 120, 400, 400]), "jitter_ms": rng.below(4), "pulls_only": rng.chance(2, 3)}) } else { Value::Null },
+                // directed schedule fault: around the start of the migration, writes a proxy has sent to
+                // its own Redis stay in flight up to x ms longer (the pre-switch barrier has to wait for them)
+                "slow_writes": if index % 3 == 2 { json!({"uses": rng.range(6, 40), "extra_ms_max": *rng.pick(&[60u64, 200, 500]), "lead_ms": rng.below(600)}) } else { Value::Null },
                 "spike_pm": *rng.pick(&[0u64, 0, 20, 60, 150]),
                 "spike_factor_max": *rng.pick(&[8u64, 20, 40]),
             },
@@ -260,7 +269,7 @@ impl Check for MigrationCheck {
         Meta {
             level: "exploration",
             rule: if self.prop == "C03" {
-                "plan = cluster of 1-3 chunks scaled out or in by one chunk while 2-4 clients issue 80-220 string/counter/list operations (incl. DEL/LPOP/RPOP) on 16-48 keys through random proxies, following MOVED; real coordinator loops drive metadata and commit. Every third run a racer: the next 4-40 RESTORE messages stay in flight up to 30-400 ms longer and a racing client deletes their key through a random proxy the moment they are sent; 4-24 read-then-delete pairs of two clients a few hops apart in every run. Swarm: latency 1-15 ms with a heavy tail (0-15% of messages x4..x40, per connection FIFO), backend_conn_num 1-3, active redirection, scan_count 1-16, scan interval, migration_limit, compressed metadata, SCAN duplicates. Non-trivial = migration committed AND >=1 write and >=1 deleting command were acknowledged while a migration was in flight; distinct = distinct (delivery-schedule hash, end state hash)."
+                "plan = cluster of 1-3 chunks scaled out or in by one chunk while 2-4 clients issue 80-220 string/counter/list operations (incl. DEL/LPOP/RPOP) on 16-48 keys through random proxies, following MOVED; real coordinator loops drive metadata and commit. Every third run slow writes: from shortly before the migration starts, the next 6-40 writes a proxy has sent to its own Redis stay in flight up to 60-500 ms longer (the pre-switch barrier must wait for them). Every third run a racer: the next 4-40 RESTORE messages stay in flight up to 30-400 ms longer and a racing client deletes their key through a random proxy the moment they are sent; 4-24 read-then-delete pairs of two clients a few hops apart in every run. Swarm: latency 1-15 ms with a heavy tail (0-15% of messages x4..x40, per connection FIFO), backend_conn_num 1-3, active redirection, scan_count 1-16, scan interval, migration_limit, compressed metadata, SCAN duplicates. Non-trivial = migration committed AND >=1 write and >=1 deleting command were acknowledged while a migration was in flight; distinct = distinct (delivery-schedule hash, end state hash)."
             } else {
                 "same plan with a TTL key population (30 ms .. 1 h, 30 days and 5e9 ms i.e. beyond 2^31/2^32 ms, and persistent); every third run the source nodes answer PTTL with a buggified value {0,1,2,999,2^31,2^32+1,2^63-1,-1,-2,malformed}. Non-trivial = >=1 RESTORE of a key with a remaining TTL was matched with its PTTL reading."
             },
@@ -411,6 +420,11 @@ async fn run_migration(prop: &'static str, plan: &Value, want_sample: bool) -> R
     let mut cc = std::collections::HashMap::new();
     cc.insert("migration_scan_count".to_string(), cfg["scan_count"].as_u64().unwrap_or(16).to_string());
     cc.insert("migration_scan_interval".to_string(), cfg["scan_interval_us"].as_u64().unwrap_or(500).to_string());
+    let compress = cfg["compression"].as_str().unwrap_or("disabled") != "disabled";
+    if compress {
+        cc.insert("compression_strategy".to_string(), cfg["compression"].as_str().unwrap_or("allow_all").to_string());
+        rec.probe("runs_with_value_compression");
+    }
     let _ = svc.change_config("c0".to_string(), cc).await;
     let mut coord = spawn_coordinator(&net, &holder, 0, cfg["compress_meta"].as_bool().unwrap_or(false), true);
 
@@ -556,10 +570,25 @@ async fn run_migration(prop: &'static str, plan: &Value, want_sample: bool) -> R
         }));
     }
 
+    if cfg["slow_writes"].is_object() {
+        let sw = &cfg["slow_writes"];
+        let start = cfg["scale_at_ms"].as_u64().unwrap_or(100) + if target_chunks > start_chunks { 1500 } else { 0 };
+        // run time 0 of the plan is `t0`; the net clock started earlier
+        let from_ms = net.now_ms() + start.saturating_sub(sw["lead_ms"].as_u64().unwrap_or(0));
+        net.add_watch(crate::simnet::Watch {
+            cmd: "SET".to_string(),
+            also: ["APPEND", "LPUSH", "RPUSH", "INCR", "SETNX", "GETSET", "DEL", "LPOP", "RPOP"].iter().map(|x| x.to_string()).collect(),
+            from_ms,
+            uses_left: sw["uses"].as_u64().unwrap_or(10) as u32,
+            extra_ms_max: sw["extra_ms_max"].as_u64().unwrap_or(200),
+            only_local: true,
+            notify: None,
+        });
+    }
     // the racer: told about every watched RESTORE as it is sent, deletes that key at once
     let racer = if cfg["racer"].is_object() {
         let (tx, mut rx) = futures::channel::mpsc::unbounded::<Vec<u8>>();
-        net.add_watch(crate::simnet::Watch { cmd: "RESTORE".to_string(), uses_left: cfg["racer"]["uses"].as_u64().unwrap_or(8) as u32, extra_ms_max: cfg["racer"]["extra_ms_max"].as_u64().unwrap_or(100), only_local: cfg["racer"]["pulls_only"].as_bool().unwrap_or(false), notify: Some(tx) });
+        net.add_watch(crate::simnet::Watch { cmd: "RESTORE".to_string(), also: vec![], from_ms: 0, uses_left: cfg["racer"]["uses"].as_u64().unwrap_or(8) as u32, extra_ms_max: cfg["racer"]["extra_ms_max"].as_u64().unwrap_or(100), only_local: cfg["racer"]["pulls_only"].as_bool().unwrap_or(false), notify: Some(tx) });
         let jitter = cfg["racer"]["jitter_ms"].as_u64().unwrap_or(0);
         let net = net.clone();
         let keys = keys.clone();
@@ -672,7 +701,8 @@ async fn run_migration(prop: &'static str, plan: &Value, want_sample: bool) -> R
                 for k in g.live_keys(now) {
                     if let Some(e) = g.data.get(&k) {
                         let ks = match &e.val {
-                            Val::Str(s) => KState::Str(s.clone()),
+                            // with compression on, the nodes hold zstd frames of what the clients wrote
+                            Val::Str(s) => KState::Str(if compress { zstd::decode_all(&s[..]).unwrap_or_else(|_| s.clone()) } else { s.clone() }),
                             Val::List(l) => KState::List(l.clone()),
                         };
                         holders.entry(k.clone()).or_default().push((a.clone(), ks, e.expire_at));
